@@ -270,8 +270,13 @@ def splitStar : List Char → List (List Char)
       | h :: t => (c :: h) :: t
 
 def isSpace (c : Char) : Bool := c = ' '
-/-- ASCII whitespace removed by `str.strip()` -/
+/-- ASCII whitespace removed by `str.strip()`: the characters with `str.isspace()`, i.e. blank, U+0009–U+000D and the four
+    separator controls U+001C–U+001F (T19: the last four were missing; found by the translation tie of `PauliSum.__init__`) -/
 def isWhite (c : Char) : Bool :=
+  c = ' ' ∨ c = '\t' ∨ c = '\n' ∨ c = '\r' ∨ c = Char.ofNat 11 ∨ c = Char.ofNat 12
+    ∨ c = Char.ofNat 28 ∨ c = Char.ofNat 29 ∨ c = Char.ofNat 30 ∨ c = Char.ofNat 31
+/-- C's `isspace` (what `complex(text)` skips: U+001C–U+001F are NOT skipped there) -/
+def isCSpace (c : Char) : Bool :=
   c = ' ' ∨ c = '\t' ∨ c = '\n' ∨ c = '\r' ∨ c = Char.ofNat 11 ∨ c = Char.ofNat 12
 
 def stripBy (p : Char → Bool) (s : List Char) : List Char :=
